@@ -1977,6 +1977,9 @@ impl CommandParser {
                     }
                     let seconds = Self::extract_string(&frames[i + 1])?.parse::<u64>()
                         .map_err(|_| FerrousError::Command(CommandError::InvalidIntegerValue))?;
+                    if seconds == 0 {
+                        return Err(FerrousError::Command(CommandError::Generic("invalid expire time in 'set' command".into())));
+                    }
                     options.expiration = Some(Duration::from_secs(seconds));
                     i += 2;
                 }
@@ -1986,6 +1989,9 @@ impl CommandParser {
                     }
                     let millis = Self::extract_string(&frames[i + 1])?.parse::<u64>()
                         .map_err(|_| FerrousError::Command(CommandError::InvalidIntegerValue))?;
+                    if millis == 0 {
+                        return Err(FerrousError::Command(CommandError::Generic("invalid expire time in 'set' command".into())));
+                    }
                     options.expiration = Some(Duration::from_millis(millis));
                     i += 2;
                 }
